@@ -434,6 +434,10 @@ def evaluate(case):
                     key = 'C01:spurious-alias-refusal:partial-write'
                 what = f'{hist}  raised AliasError but {n} changed'
             elif exc is not None and in_group:
+                if op.startswith('Table.'):
+                    # a multi-column table assignment that fails half-way is atomic per column (C08's
+                    # statement speaks of *the vector*); C01 demands nothing more of a failed table write
+                    continue
                 key = f'C01:{op}:failed-op-changed-target'
                 what = f'{hist}  raised {exc.__name__} but {n} changed'
             elif cls in ('derive', 'read'):
